@@ -46,7 +46,7 @@ type mapRangeSite struct {
 }
 
 func runC20(c *Ctx) {
-	c.Rule("R20a", "order-insensitive map iteration: every range over a map only writes maps, accumulates commutatively, collects into a slice sorted before it escapes, or exits with element-independent values (listed exceptions carry a reason)", 30)
+	c.Rule("R20a", "order-insensitive map iteration: every range over a map only writes maps, accumulates commutatively, collects into a slice sorted before it escapes, or exits with element-independent values (listed exceptions carry a reason)", 20)
 	c.Rule("R20b", "no shared planning state: functions reachable from the planners, differs, marshalers, formatters and Checksum write no package-level variable; PlanChanges allocates its state per call and stores nothing into its receiver", 5)
 
 	c.Rule("R20c", "sibling agreement: every implementation of migrate.Dir.Files orders the files by name (sort comparator over file names / Name()), the unique key of a directory entry: a coarser key (version, description) leaves files with equal keys in map/listing order", 3)
